@@ -86,6 +86,7 @@ def scratch(seed, wt, props):
 
 
 def repo(seeded, props):
+    seeded = os.path.abspath(seeded)
     rc, st = sh("git -C /repo status --porcelain")
     if st.strip():
         return {"error": "/repo working tree not clean"}
